@@ -200,3 +200,12 @@ Proof.
   split; [exact ex6_nvalid|]. split; [exact ex6_count|]. split; [exact ex7_frag2|]. split; [exact ex7_rejection_free|].
   split; [exact ex7_nacc|]. split; [exact ex7_nvalid | exact ex7_acount].
 Qed.
+
+(** a nested design: 64 keys, 8 accepted = 8 valid sequences *)
+Example C06_example_nested :
+  frag2 ex8_flat = true /\ rejection_free ex8_flat = false /\ length (keys_of ex8_flat) = 64 /\
+  length (accepted_keys ex8_flat) = 8 /\ length (all_valid (code_sem ex8_flat)) = 8 /\ check_accepted_count ex8_flat = true.
+Proof.
+  split; [exact ex8_frag2|]. split; [reflexivity|]. split; [exact ex8_nkeys|]. split; [exact ex8_nacc|].
+  split; [exact ex8_nvalid | exact ex8_acount].
+Qed.
